@@ -689,8 +689,11 @@ def run(chk: core.Check):
     rng.shuffle(pm)
     for name in (pm[:3] if quick else pm):
         case_personalize(chk, env, name, rng.randrange(1, 10 ** 6), ALGOS)
-    nj = ["logistic_diag_noise", "joint_diagonal", "linear_scalar_noise"]
+    # quick: always a model whose optimiser start point is drawn from the prior (the joint model's start is deterministic,
+    # so it cannot reveal anything that depends on the workers' random streams); thorough: all three
+    nj = ["logistic_diag_noise", "linear_scalar_noise"]
     rng.shuffle(nj)
+    nj.append("joint_diagonal")
     for name in (nj[:1] if quick else nj):
         hs = [rng.randrange(1, 1000) for _ in range(2 if quick else 3)]
         case_njobs(chk, env, name, rng.randrange(1, 10 ** 6), hs)
